@@ -443,6 +443,8 @@ pub struct GenOpts {
     pub hashing: bool,
     pub extension: bool,
     pub max_table_len: usize,
+    /// restrict base decompositions to base 2 (the only base in the default gate/generator registries)
+    pub only_base2: bool,
 }
 
 /// Generates a program together with a designated satisfying input; generation is guided by the
@@ -673,7 +675,7 @@ pub fn gen_program<R: Rng>(rng: &mut R, bset: &[u64], o: &GenOpts) -> (Program, 
             }
             51..=53 => {
                 let a = pick(rng);
-                let b = [2usize, 3, 4][rng.gen_range(0..3)];
+                let b = if o.only_base2 { 2usize } else { [2usize, 3, 4][rng.gen_range(0..3)] };
                 let mut need = 0usize;
                 let mut t = vals[a] as u128;
                 while t > 0 {
